@@ -38,14 +38,14 @@ CHECKS = {
  "C11": dict(level="fault_enumeration", technique="planted-defect enumeration over generated documents: syntax damage at drawn byte positions vs the parser crate's own message (mirrored drive), unrepresentable leaf at every node path vs standalone serializer reasons, writer fault at every output byte",
    text="Each generated document gets exactly one planted defect; the oracle for the error text is derived at run time from the very parser/serializer crates xt drives (same locked versions), never hard-coded. Node paths and writer fault offsets are enumerated exhaustively per document; syntax damage positions are drawn.",
    note="Positions in messages are not asserted to be stream-relative. For MessagePack targets the inner I/O error is not printed by rmp_serde; its own failure phrase is required instead.", ref="4 C11"),
- "C12": dict(level="fault_enumeration", technique="exhaustive fault-offset enumeration per generated input: reader failing at every input offset, writer failing at every output offset, short-write patterns; oracle = verdict, preserved error text, document-prefix / byte-prefix relation to the fault-free run",
-   text="For every generated valid stream all reader fault offsets 0..=|input| and all writer fault offsets below the output length are enumerated (sampled only above 2 KiB / 1 KiB), for named and detected sources, all targets and drawn read schedules.",
+ "C12": dict(level="fault_enumeration", technique="exhaustive fault-offset enumeration per generated input: reader failing at every input offset, writer failing at every output offset, short-write patterns, one transient Interrupted at every offset; oracle = verdict, preserved error text, document-prefix / byte-prefix relation to the fault-free run",
+   text="For every generated valid stream all reader fault offsets 0..=|input| and all writer fault offsets below the output length are enumerated (sampled only above 2 KiB / 1 KiB), for named and detected sources (UTF-8 and UTF-16/32 YAML), all targets and drawn read schedules; a reader interrupted exactly once at every offset must give the fault-free output or a clean failure (named formats).",
    note="Faulty readers keep failing once they failed. Complete documents are compared, not byte prefixes, for reader faults.", ref="4 C12"),
- "C13": dict(level="exploration", technique="exhaustive argv enumeration up to a length bound plus random argv (proptest) against a reference model of the command line; real debug/release binaries; stdout pipe, file and pseudo-terminal",
-   text="Every argument vector up to length 2 (quick) / 3 (thorough) over the quantifier's vocabulary is executed and compared with a reference CLI model written from the manual (exit status, which stream carries what, usage text, offending input named, terminal guard); longer vectors are sampled.",
+ "C13": dict(level="exploration", technique="exhaustive argv enumeration up to a length bound plus random argv (proptest) against a reference model of the command line; real debug/release binaries; stdout pipe, file, pseudo-terminal, /dev/full and closed pipes on stdout/stderr",
+   text="Every argument vector up to length 2 (quick) / 3 (thorough) over the quantifier's vocabulary is executed and compared with a reference CLI model written from the manual (exit status, which stream carries what, usage text, offending input named, terminal guard); longer vectors are sampled; every vocabulary vector is also run with unwritable stdout/stderr (status by the model, never a signal).",
    note="Unreadable files cannot be produced as root; 'translating nothing' is observed as empty stdout + exit 2.", ref="4 C13"),
  "C14": dict(level="exploration", technique="property-based testing (proptest) of generated file names / contents / input kinds through the real binaries against reference resolution (-f > extension > detection) and in-process library output",
-   text="Generated combinations of -f, extension spelling and case, content, input kind (mmap file, empty file, FIFO, stdin, '-' positions, '-' twice, directory) and target; stdout and exit status must equal the reference model whose bytes come from the library in the matching supply mode.",
+   text="Generated combinations of -f, extension spelling and case, content, input kind (mmap file, empty file, FIFO, stdin, stdin redirected from a file at an offset, '-' positions, '-' twice, directory), unrecognised one-letter / odd-case extensions and target; stdout and exit status must equal the reference model whose bytes come from the library in the matching supply mode.",
    note="Relies on C01-C03 for the correctness of the library output it compares with.", ref="4 C14"),
  "C15": dict(level="fault_enumeration", technique="fault enumeration through the real binaries: one failing input of every failure kind planted at every position of generated input lists (sizes below/around/above the stdout buffer), oracle = stdout starts with the library's translations of the preceding inputs",
    text="Each generated list of inputs gets one planted failure (position and kind drawn so that all occur); exit status and the prefix relation of stdout are checked against the reference CLI model; success runs must be exact.",
